@@ -231,6 +231,24 @@ func VerifH11() {
 		srv.TLSConfig = tlsCfg
 	}
 	session := vCat(vStartup(vKV([]byte("user"), []byte("u"))), vMsgBytes('X', nil))
+	if vParam("GSS", 0) == 1 {
+		// the client asks for GSSAPI encryption first (as libpq does with a ticket
+		// cache), then for SSL. Whether the server declines the first request with
+		// 'N' or hangs up on it: with certificates configured, an SSLRequest it
+		// answers is answered 'S', and nothing but TLS follows
+		vAssume(cfgKind == 2)
+		gss := []byte{0, 0, 0, 8, 0x04, 0xd2, 0x16, 0x30}
+		run := vServeTLS(srv, vCat(gss, vSSLRequest, stuffed), session)
+		vAssert("no-panic", !run.escaped)
+		raw := run.rawOut
+		vAssert("an-answered-SSLRequest-is-answered-S-when-certificates-are-configured",
+			len(raw) == 0 || (len(raw) == 1 && (raw[0] == 'N' || raw[0] == 'S')) || (len(raw) >= 2 && ((raw[0] == 'N' && raw[1] == 'S' && vOnlyTLSRecords(raw[2:])) || (raw[0] == 'S' && vOnlyTLSRecords(raw[1:])))))
+		for _, u := range seenUsers {
+			vAssert("no-session-from-plaintext-start-up-bytes", string(u) == "u")
+		}
+		vReach("gssenc-request-before-the-sslrequest")
+		return
+	}
 	if vParam("CLOSEINSIDE", 0) == 1 {
 		vAssume(cfgKind == 2)
 		if nondetBool() {
